@@ -738,10 +738,7 @@ func (s *appState) msg(d *driver, f []string) string {
 	ecs := ""
 	if res == "err" {
 		// whose refusal: an error registered under the module's own codespace, or another module's handed through
-		ecs = " ecs=ext"
-		if strings.Contains(errTxt, "codespace=orbiter;") {
-			ecs = " ecs=orbiter"
-		}
+		ecs = " ecs=" + strings.TrimPrefix(strings.SplitN(errTxt, ";", 2)[0], "codespace=")
 	}
 	return fmt.Sprintf("res=%s ev=%s st=%s req=%s%s errtxt=%s", res, orbiterEventNames(evs), s.stateStr(s.env.Ctx), s.reqFromEvents(evs), ecs, hx(errTxt))
 }
